@@ -216,6 +216,12 @@ var serfWorkMarks = [][]byte{
 	[]byte("serf.(*Serf).broadcastJoin"),
 	[]byte("serf.(*Serf).resolveNodeConflict"),
 	[]byte("serf.(*Serf).handleNodeConflict"),
+	// goroutines that were created but have not run yet show the compiler's
+	// wrapper of the go statement and a "created by" line naming the function
+	// that spawned them (these callers run synchronously under the harness, so
+	// by the time we wait, any mention of them is a spawned goroutine)
+	[]byte("serf.(*serfQueries).stream.gowrap"),
+	[]byte("serf.(*Serf).handleNodeLeaveIntent"),
 }
 
 func serfWorkRunning() bool {
